@@ -4,6 +4,7 @@
 
 mod codec;
 mod proto;
+mod stream;
 
 use std::io::{BufRead, Write};
 
